@@ -79,6 +79,24 @@ def known_match(run, what_kind, detail):
     return run.match_known(sig)
 
 
+def replay(run, model, drv, path):
+    """re-run the case(s) of a replay file: lines 'case: <line>' / 'replay: <line>'"""
+    lines = []
+    for ln in open(path):
+        m = re.match(r"(?:case|replay): ((?:oscx|oscun|oscderive) .*)$", ln.strip())
+        if m:
+            lines.append(m.group(1))
+    om, oc, _ = tie.run_both(model, drv, lines)
+    for k, ln in enumerate(lines):
+        run.count(ln, True)
+        run.sample({"case": ln[:400], "model": om[k][:300], "impl": oc[k][:300]})
+        if om[k] != oc[k]:
+            run.violation("replay: libcoap differs from the reference", "case: %s\nmodel: %s\nimpl : %s\n" %
+                          (ln, om[k], oc[k]), tag="replay%d" % k,
+                          no_input=not (oc[k].startswith("OK") or "NONE" in oc[k] or "REJECT" in oc[k]))
+    run.cov["replayed"] = len(lines)
+
+
 def main(run):
     run.cov["trusted_base"] = vlib.TRUSTED_COMMON + [
         "reference: coq/Oscore/{Aes128,Ccm,Sha256,Hkdf,Cbor,OscOption,Protect}.v written from FIPS-197, "
@@ -97,6 +115,8 @@ def main(run):
     model = vlib.build_model()
     drv = vlib.build_driver("h_oscore", ["h_oscore.c"], wraps=WRAPS)
     quick = run.tier == "quick"
+    if getattr(run, "replay", None):
+        return replay(run, model, drv, run.replay)
     r = tie.rng_for(run, "c14")
 
     # ---------------------------------------------------------------- exchanges
